@@ -33,9 +33,10 @@ LOOP == <<"loop", 0>>
 USER == <<"user", 0>>
 OBS  == <<"obs", 0>>
 
-VARIABLES pc, upc, userRef, loopRef, pending, todo, flag, exiting, evt, woken, wdl, plan, now, joined, leak,
+VARIABLES pc, upc, userRef, loopRef, pending, todo, flag, exiting, evt, woken, wdl, plan, now, joined, leak, stuck,
           obs, viol, actor
-vars == <<pc, upc, userRef, loopRef, pending, todo, flag, exiting, evt, woken, wdl, plan, now, joined, leak, obs, viol, actor>>
+vars == <<pc, upc, userRef, loopRef, pending, todo, flag, exiting, evt, woken, wdl, plan, now, joined, leak, stuck, obs, viol,
+          actor>>
 
 RECURSIVE Feed(_, _, _)
 Feed(o, v, evs) ==
@@ -48,13 +49,13 @@ NoEmit == UNCHANGED <<obs, viol>>
 
 \* the user's program: a sequence over {"submit", "drop", "shutdown_wait", "shutdown_nowait", "exit"}
 Plans == {p \in UNION {[1..n -> Actions] : n \in 1..3} :
-            \A i \in DOMAIN p : (p[i] = "submit" => \A k \in 1..(i - 1) : p[k] \notin {"drop", "shutdown_wait", "shutdown_nowait"})}
+            \A i \in DOMAIN p : (p[i] \in {"submit", "submit_stuck"} => \A k \in 1..(i - 1) : p[k] \notin {"drop", "shutdown_wait", "shutdown_nowait"})}
 
 Init ==
   /\ plan \in Plans
   /\ pc = "l_top" /\ upc = 1 /\ userRef = TRUE /\ loopRef = FALSE /\ pending = 0 /\ todo = 0
   /\ flag = FALSE /\ exiting = FALSE /\ evt = FALSE /\ woken = FALSE /\ wdl = -1 /\ now = 0 /\ joined = FALSE
-  /\ leak = FALSE
+  /\ leak = FALSE /\ stuck = 0
   /\ obs = ObsNext(ObsInit, Ev("ThreadStart", "-", "retry", 0, -1, -1, -1, -1, -1, "loop", <<>>))
   /\ viol = "ok" /\ actor = NoOne
 
@@ -62,11 +63,14 @@ Init ==
 \* (seeded model bug "done_future_keeps_executor"; defect D17 was an instance: a future cancelled between retries kept
 \* the delegate future of its previous attempt, whose callbacks reference the executor).  It keeps the object alive
 \* - so the weakref callback does not fire - although nobody may legitimately still need the executor.
-Legit == userRef \/ loopRef \/ pending > 0
+\* `stuck`: accepted work the loop can never finish by itself (a polled future the poll function does not resolve, a
+\* retry waiting for a distant back-off): it references the executor like any pending future, and shutdown() must
+\* get the thread out all the same.
+Legit == userRef \/ loopRef \/ pending > 0 \/ stuck > 0
 Alive == Legit \/ leak
 SetEvent == evt' = TRUE /\ woken' = (woken \/ pc = "l_blocked")
 \* dropping a strong reference: if it was the last one the weakref callback sets the event, in the same thread
-AfterDrop(u, l, p) == IF ~(u \/ l \/ p > 0 \/ leak) /\ Bug # "no_weakref_callback" THEN SetEvent ELSE UNCHANGED <<evt, woken>>
+AfterDrop(u, l, p) == IF ~(u \/ l \/ p > 0 \/ leak \/ stuck > 0) /\ Bug # "no_weakref_callback" THEN SetEvent ELSE UNCHANGED <<evt, woken>>
 
 \* ------------------------------------------------------------------ the loop
 LDeref ==      \* executor = executor_ref(); flag checks; the work of this iteration
@@ -74,14 +78,14 @@ LDeref ==      \* executor = executor_ref(); flag checks; the work of this itera
   /\ IF ~Alive
        THEN /\ pc' = "exited" /\ UNCHANGED <<loopRef, pending, todo, evt, woken>>
             /\ Emit(<<Ev("ThreadExit", "-", "retry", now, -1, -1, 0, -1, -1, "loop", <<>>)>>)
-       ELSE IF flag \/ exiting
+       ELSE IF (IF Bug = "exit_only_when_idle" THEN (flag /\ stuck = 0) \/ exiting ELSE flag \/ exiting)
          THEN \* break: the local strong reference dies with the frame
               /\ pc' = "exited" /\ loopRef' = FALSE /\ UNCHANGED <<pending, todo>>
               /\ AfterDrop(userRef, FALSE, pending)
               /\ Emit(<<Ev("ThreadExit", "-", "retry", now, -1, -1, 0, -1, -1, "loop", <<>>)>>)
          ELSE /\ loopRef' = TRUE /\ pc' = "l_work" /\ UNCHANGED <<pending, todo, evt, woken>> /\ NoEmit
   /\ actor' = LOOP
-  /\ UNCHANGED <<upc, userRef, flag, exiting, wdl, plan, now, joined, leak>>
+  /\ UNCHANGED <<upc, userRef, flag, exiting, wdl, plan, now, joined, leak, stuck>>
 
 LWork ==       \* handle everything that is queued (resolves the pending futures), then `del executor`
   /\ pc = "l_work"
@@ -93,27 +97,27 @@ LWork ==       \* handle everything that is queued (resolves the pending futures
   \* arrived since the flags were read at the top of the iteration is lost
   /\ IF Bug = "clear_before_wait" THEN evt' = FALSE /\ UNCHANGED woken ELSE AfterDrop(userRef, FALSE, pending - todo)
   /\ actor' = LOOP /\ NoEmit
-  /\ UNCHANGED <<upc, userRef, flag, exiting, wdl, plan, now, joined>>
+  /\ UNCHANGED <<upc, userRef, flag, exiting, wdl, plan, now, joined, stuck>>
 
 LEnter ==
   /\ pc = "l_wait"
   /\ IF evt THEN /\ pc' = "l_clear" /\ UNCHANGED wdl
             ELSE /\ pc' = "l_blocked" /\ wdl' = IF Timer > 0 THEN now + Timer + 1 ELSE -1
   /\ actor' = LOOP /\ NoEmit
-  /\ UNCHANGED <<upc, userRef, loopRef, pending, todo, flag, exiting, evt, woken, plan, now, joined, leak, obs, viol>>
+  /\ UNCHANGED <<upc, userRef, loopRef, pending, todo, flag, exiting, evt, woken, plan, now, joined, leak, stuck, obs, viol>>
 
 LWake ==
   /\ pc = "l_blocked" /\ (woken \/ (wdl >= 0 /\ now >= wdl))
   /\ woken' = FALSE /\ pc' = "l_clear"
   /\ actor' = LOOP /\ NoEmit
-  /\ UNCHANGED <<upc, userRef, loopRef, pending, todo, flag, exiting, evt, wdl, plan, now, joined, leak>>
+  /\ UNCHANGED <<upc, userRef, loopRef, pending, todo, flag, exiting, evt, wdl, plan, now, joined, leak, stuck>>
 
 LClear ==
   /\ pc = "l_clear"
   /\ evt' = IF Bug = "clear_before_wait" THEN evt ELSE FALSE
   /\ pc' = "l_top"
   /\ actor' = LOOP /\ NoEmit
-  /\ UNCHANGED <<upc, userRef, loopRef, pending, todo, flag, exiting, woken, wdl, plan, now, joined, leak>>
+  /\ UNCHANGED <<upc, userRef, loopRef, pending, todo, flag, exiting, woken, wdl, plan, now, joined, leak, stuck>>
 
 \* ------------------------------------------------------------------ the user's operations (each in visible steps)
 Cur == IF upc <= Len(plan) THEN plan[upc] ELSE "none"
@@ -122,21 +126,28 @@ USubmit ==     \* submit(): queue work (the future references the executor), the
   /\ pending' = pending + 1 /\ todo' = todo + 1
   /\ SetEvent /\ upc' = upc + 1
   /\ actor' = USER /\ NoEmit
-  /\ UNCHANGED <<pc, userRef, loopRef, flag, exiting, wdl, plan, now, joined, leak>>
+  /\ UNCHANGED <<pc, userRef, loopRef, flag, exiting, wdl, plan, now, joined, leak, stuck>>
+
+USubmitStuck ==   \* submit() of work that stays unfinished for ever
+  /\ Cur = "submit_stuck" /\ userRef /\ ~flag
+  /\ stuck' = stuck + 1
+  /\ SetEvent /\ upc' = upc + 1
+  /\ actor' = USER /\ NoEmit
+  /\ UNCHANGED <<pc, userRef, loopRef, pending, todo, flag, exiting, wdl, plan, now, joined, leak>>
 
 UDrop ==       \* the last user reference goes away
   /\ Cur = "drop" /\ userRef
   /\ userRef' = FALSE /\ upc' = upc + 1
   /\ AfterDrop(FALSE, loopRef, pending)
   /\ actor' = USER /\ NoEmit
-  /\ UNCHANGED <<pc, loopRef, pending, todo, flag, exiting, wdl, plan, now, joined, leak>>
+  /\ UNCHANGED <<pc, loopRef, pending, todo, flag, exiting, wdl, plan, now, joined, leak, stuck>>
 
 UShutFlag ==   \* shutdown(): flip the flag (under the gate) ...
   /\ Cur \in {"shutdown_wait", "shutdown_nowait"} /\ ~flag
   /\ flag' = TRUE
   /\ Emit(<<Ev("ShutdownCall", "-", "shutdown", now, -1, -1, IF Cur = "shutdown_wait" THEN 1 ELSE 0, 0, 0, "top", <<>>)>>)
   /\ actor' = USER
-  /\ UNCHANGED <<pc, upc, userRef, loopRef, pending, todo, exiting, evt, woken, wdl, plan, now, joined, leak>>
+  /\ UNCHANGED <<pc, upc, userRef, loopRef, pending, todo, exiting, evt, woken, wdl, plan, now, joined, leak, stuck>>
 
 UShutSet ==    \* ... then event.set() and delegate.shutdown(); without wait shutdown() returns here
   /\ Cur \in {"shutdown_wait", "shutdown_nowait"} /\ flag /\ ~joined
@@ -146,34 +157,34 @@ UShutSet ==    \* ... then event.set() and delegate.shutdown(); without wait shu
        THEN /\ upc' = upc + 1 /\ Emit(<<ES("ShutdownRet", "shutdown", now, -1, "top")>>)
        ELSE /\ UNCHANGED upc /\ NoEmit
   /\ actor' = USER
-  /\ UNCHANGED <<pc, userRef, loopRef, pending, todo, flag, exiting, wdl, plan, now, leak>>
+  /\ UNCHANGED <<pc, userRef, loopRef, pending, todo, flag, exiting, wdl, plan, now, leak, stuck>>
 
 UJoin ==       \* wait=True: thread.join() returns once the loop has exited
   /\ Cur = "shutdown_wait" /\ joined /\ pc = "exited"
   /\ upc' = upc + 1
   /\ Emit(<<ES("ShutdownRet", "shutdown", now, -1, "top")>>)
   /\ actor' = USER
-  /\ UNCHANGED <<pc, userRef, loopRef, pending, todo, flag, exiting, evt, woken, wdl, plan, now, joined, leak>>
+  /\ UNCHANGED <<pc, userRef, loopRef, pending, todo, flag, exiting, evt, woken, wdl, plan, now, joined, leak, stuck>>
 
 UExit ==       \* interpreter exit hook: global flag, then every event
   /\ Cur = "exit"
   /\ exiting' = TRUE /\ SetEvent /\ upc' = upc + 1
   /\ actor' = USER /\ NoEmit
-  /\ UNCHANGED <<pc, userRef, loopRef, pending, todo, flag, wdl, plan, now, joined, leak>>
+  /\ UNCHANGED <<pc, userRef, loopRef, pending, todo, flag, wdl, plan, now, joined, leak, stuck>>
 
 UserDone == upc > Len(plan)
 AnyEnabled ==
   \/ pc \in {"l_top", "l_work", "l_wait", "l_clear"} \/ (pc = "l_blocked" /\ (woken \/ (wdl >= 0 /\ now >= wdl)))
-  \/ (Cur = "submit" /\ userRef /\ ~flag) \/ (Cur = "drop" /\ userRef)
+  \/ (Cur \in {"submit", "submit_stuck"} /\ userRef /\ ~flag) \/ (Cur = "drop" /\ userRef)
   \/ (Cur \in {"shutdown_wait", "shutdown_nowait"} /\ (~flag \/ ~joined)) \/ (Cur = "shutdown_wait" /\ joined /\ pc = "exited")
   \/ Cur = "exit"
 
 Tick ==
   /\ ~AnyEnabled /\ pc = "l_blocked" /\ wdl >= 0 /\ wdl <= Horizon
   /\ now' = wdl /\ actor' = <<"tick", 0>>
-  /\ UNCHANGED <<pc, upc, userRef, loopRef, pending, todo, flag, exiting, evt, woken, wdl, plan, joined, leak, obs, viol>>
+  /\ UNCHANGED <<pc, upc, userRef, loopRef, pending, todo, flag, exiting, evt, woken, wdl, plan, joined, leak, stuck, obs, viol>>
 
-Next == LDeref \/ LWork \/ LEnter \/ LWake \/ LClear \/ USubmit \/ UDrop \/ UShutFlag \/ UShutSet \/ UJoin \/ UExit \/ Tick
+Next == LDeref \/ LWork \/ LEnter \/ LWake \/ LClear \/ USubmit \/ USubmitStuck \/ UDrop \/ UShutFlag \/ UShutSet \/ UJoin \/ UExit \/ Tick
 Spec == Init /\ [][Next]_vars
 
 \* ------------------------------------------------------------------ properties (all safety; time is virtual)
@@ -186,6 +197,8 @@ ShutdownReturnsInv == ~(Cur = "shutdown_wait" /\ joined /\ pc # "exited" /\ ~Any
 PendingStillCompletes == ~(pending > 0 /\ ~flag /\ ~exiting /\ ~AnyEnabled /\ pc \in {"exited", "l_blocked"} /\ wdl = -1)
 \* the executor is not kept alive by the loop while it sleeps
 NoRefWhileSleeping == pc \in {"l_blocked", "l_wait", "l_clear"} => ~loopRef
+\* with a periodic wake-up the thread is gone one period after it was told to go (every user action happens at time 0)
+GoneAfterOnePeriod == (Timer > 0 /\ (flag \/ exiting) /\ now > Timer + 2) => pc = "exited"
 ContractHolds == viol = "ok"
 StopAtHorizon == now <= Horizon
 =============================================================================
